@@ -8,10 +8,13 @@ and each of three declaration forms (extern variable, typedef, function paramete
   (2) the text parse_file prints back for it, compiled by g++ in a side namespace, must have
       the same type as the original (decltype / is_same);
   (3) the prototype interrogate records in the database for the function form likewise.
-Plus the corpus part: every shipped stub header that g++ accepts parses with zero errors."""
+Plus the corpus part: every shipped stub header that g++ accepts parses with zero errors;
+the name-lookup part (spec NameLookup) and the class-template instantiation part (spec TemplInst,
+see _c06_templ.py)."""
 import os, re, subprocess
 from ..common import MachineryError, REPO
 from .. import build, tlc, run, idb
+from ._c06_templ import templ_inst
 
 DECLS = "struct S {};\nstruct V {};\nnamespace ns { struct K {}; struct V {}; }\ntemplate<class A1, class A2> struct Pair {};\ntemplate<class A1> struct Box {};\n"
 PRELUDE = r'''#include <type_traits>
@@ -269,6 +272,9 @@ def run_check(ctx):
     # name lookup: the entity a printed type name denotes ---------------------------------
     n_lookup = name_lookup(ctx, work)
 
+    # class-template instantiation: the type a member of an instantiation denotes ---------
+    n_templ = templ_inst(ctx, work)
+
     # how exact are the finding predicates?  members of each class vs. members that actually failed
     failed = set(rejected) | bad_ents | bad3
     prec = {}
@@ -281,7 +287,7 @@ def run_check(ctx):
                 print("PASSING-MEMBER", c, D[(f, n)])
     ctx.notes.setdefault("finding_class_failed_of_members", {}).update(prec)
     ctx.cov["evaluations"] = len(ents)
-    ctx.cov["traces_validated_against_impl"] = n_cmp + len(todo3) + len(rejected) + n_corpus + n_lookup
+    ctx.cov["traces_validated_against_impl"] = n_cmp + len(todo3) + len(rejected) + n_corpus + n_lookup + n_templ
     ctx.notes["lookup_programs"] = n_lookup
     ctx.cov["distinct_nontrivial"] = len(set(t["s"] for t in terms if len(t["sh"]) > 2))
     ctx.cov["exhaustive"] = "sampled" not in ctx.notes
